@@ -199,4 +199,14 @@ theorem logs_map (m : Nat) (l : List Nat) (f : Nat → Name) (g : Nat → Option
     simp only [logsToRecover, List.map_cons, List.filterMap_cons] at this ⊢
     rw [ha, this]
 
+theorem present_map (l : List Nat) (f : Nat → Name) (h : ∀ n ∈ l, (parse (f n)).bind numberOf = some n) :
+    presentNumbers (l.map f) = l := by
+  induction l with
+  | nil => rfl
+  | cons a as ih =>
+    have ha := h a (by simp)
+    have := ih (fun n hn => h n (by simp [hn]))
+    simp only [presentNumbers, List.map_cons, List.filterMap_cons, ha] at this ⊢
+    rw [this]
+
 end Rain.FileNames.Lemmas
